@@ -32,8 +32,21 @@ struct Args {
     stdio: bool,
 }
 
-#[tokio::main]
-async fn main() -> Result<()> {
+/// Parsing, analysing and formatting recurse over the nesting of the document.
+/// The default thread stack overflows at a nesting depth of less than one hundred.
+const THREAD_STACK_SIZE: usize = 512 * 1024 * 1024;
+
+fn main() -> Result<()> {
+    tokio::runtime::Builder::new_multi_thread()
+        .enable_all()
+        .thread_stack_size(THREAD_STACK_SIZE)
+        .build()
+        .wrap_err("Cannot start runtime")?
+        // spawned, so that the server itself runs on a thread with the large stack, too
+        .block_on(async { tokio::spawn(run()).await.wrap_err("Server crashed")? })
+}
+
+async fn run() -> Result<()> {
     color_eyre::install()?;
     let args = Args::parse();
     if let Some(log_file) = &args.log {
